@@ -28,12 +28,31 @@ theorem numbers_alt_error {φ} (il : IL ι φ) (a : Vocab ι) (i : List ι) (hi 
 
 /-- **C16 (copy under a new vocabulary, repaired):** alignment is preserved, the identifiers are the same,
     and the numbers are recomputed for the new vocabulary -/
-theorem withVocab_repaired_spec {φ} (src : IL ι φ) (v2 : Vocab ι) (i : List ι) (out : IL ι φ)
-    (hal : Aligned src) (hids : idsOf src = .ok i) (hne : src.vocab ≠ some v2)
+theorem withVocab_repaired_spec {φ} (src : IL ι φ) (v2 : Vocab ι) (i : List ι) (out : IL ι φ) (v : Vocab ι)
+    (hal : Aligned src) (hids : idsOf src = .ok i) (hv0 : src.vocab = some v) (hne : src.vocab ≠ some v2)
     (h : withVocab .repaired src v2 = .ok out) :
     Aligned out ∧ idsOf out = .ok i ∧ numbersOf out none .negative = .ok (i.map (numberOf v2)) := by
   unfold withVocab at h
-  simp only [hne, if_false, hids, Except.ok.injEq] at h
+  simp only [hne, if_false] at h
+  cases hn0 : src.nums with
+  | none =>
+    -- no numbers: the identifiers are stored, only the vocabulary changes
+    simp only [hv0, hn0, Except.ok.injEq] at h
+    subst h
+    obtain ⟨h1, h2, h3, h4⟩ := hal
+    cases hs : src.ids with
+    | none => simp [idsOf, hs, hv0, hn0] at hids
+    | some i' =>
+      have : i' = i := by simpa [idsOf, hs] using hids
+      subst this
+      refine ⟨⟨?_, ?_, h3, ?_⟩, ?_, ?_⟩
+      · intro i'' hi''; simp only [hs, Option.some.injEq] at hi''; subst hi''; exact h1 i' hs
+      · intro n hn; simp [hn0] at hn
+      · intro v' i'' n _ _ hn; simp [hn0] at hn
+      · simp [idsOf, hs]
+      · simp [numbersOf, hn0, hs]
+  | some n0 =>
+  simp only [hv0, hn0, hids, Except.ok.injEq] at h
   subst h
   obtain ⟨h1, h2, h3, h4⟩ := hal
   have hlen : i.length = src.len := by
